@@ -297,6 +297,7 @@ pub fn doc(path: &str, format: Format, tests: Vec<Test>) -> Doc {
         compact: false,
         loose_front_matter: false,
         fence_trailing_space: false,
+        stored_at: None,
     }
 }
 
